@@ -248,10 +248,15 @@ func opcodesOf(s []byte) []byte {
 // checkPrevoutRecord: the only thing execution may record on the caller's transaction is the spent
 // output's value and script on the checked input — afterwards they must be exactly those.
 func checkPrevoutRecord(p *interpgen.Program, b *interpgen.Built) {
-	if b.Tx == nil || !p.HasPrev || len(b.Tx.Inputs) == 0 {
+	if b.Tx == nil || !p.HasPrev || len(b.Tx.Inputs) <= p.ExtraIn {
 		return
 	}
-	in := b.Tx.Inputs[0]
+	for k := 0; k < p.ExtraIn; k++ {
+		if o := b.Tx.Inputs[k]; o.PreviousTxScript != nil || o.PreviousTxSatoshis != 0 {
+			c.Violate("Engine.Execute/records-a-spent-output-on-another-input", fmt.Sprintf("input %d", k), p)
+		}
+	}
+	in := b.Tx.Inputs[p.ExtraIn]
 	if in.PreviousTxScript == nil {
 		return // rejected before the record was made
 	}
@@ -293,7 +298,9 @@ func buffersOnly(p *interpgen.Program) {
 // either script, early OP_RETURN in the unlocking script, signature pushes inside the script) on
 // the implementation. The verdict is not interesting here; panics and caller-buffer changes are.
 func sigShapes(r *common.Rand, emitp func(*interpgen.Program), n int) {
-	junkSig := func() []byte { return append(r.Bytes(8+r.Intn(64)), []byte{0x01, 0x41, 0x02, 0xc3, 0x00}[r.Intn(5)]) }
+	junkSig := func() []byte {
+		return append(r.Bytes(8+r.Intn(64)), []byte{0x01, 0x41, 0x02, 0xc3, 0x00, 0x03, 0x83, 0x43, 0x82, 0x81}[r.Intn(10)])
+	}
 	junkKey := func() []byte {
 		k := r.Bytes(33)
 		k[0] = []byte{2, 3, 4, 6}[r.Intn(4)]
@@ -362,6 +369,9 @@ func sigShapes(r *common.Rand, emitp func(*interpgen.Program), n int) {
 			unlock = append(unlock, tail()...)
 		}
 		p := &interpgen.Program{Unlock: unlock, Lock: lock, HasTx: true, HasPrev: true, TxVersion: 1, InSeq: 0xffffffff, Kind: "sig-shape"}
+		// the tested input is not always the first, and there are outputs at and around its index
+		// (SIGHASH_SINGLE/NONE digests rewrite the other inputs and the outputs of a copy)
+		p.ExtraIn, p.ExtraOut = r.Intn(3), r.Intn(4)
 		if r.Chance(55) {
 			p.Flags |= interpgen.FGenesis
 		}
